@@ -28,8 +28,8 @@ AtEnd == pos > Len(input)
 
 TypeOK == st \in LexStates /\ pos \in 1..(MaxLines + 1)
 AcceptsExactlyReports == AtEnd => ((st \in LexAccepting) <=> IsReport(input))
-FoldAgrees == AtEnd => st = LexRun(input)
-PrefixFoldAgrees == st = LexRun(SubSeq(input, 1, pos - 1))
+FoldAgrees == AtEnd => st = LexRun(input) /\ st = LexFold(input)
+PrefixFoldAgrees == st = LexRun(SubSeq(input, 1, pos - 1)) /\ st = LexFold(SubSeq(input, 1, pos - 1))
 \* "bad" is a trap: once a prefix is rejected no continuation is accepted
 BadIsTrap == st = "bad" => ~IsReport(input)
 \* a report never contains a second headline nor an unindented non-bullet line
